@@ -462,7 +462,7 @@ ZeroPos(x) == {q - 1 : q \in {q \in 1..Len(x.c) : x.c[q] = "zero"}}
 SparseHistory(u) ==
   UNION {{WithField(x, "hist", [how |-> h, pos |-> p]) : h \in HistWays, p \in {MinOf(ZeroPos(x)), MaxOf(ZeroPos(x))}} :
             x \in {x \in VectorsRound(u) \cup MatricesRound(u) :
-                      x.st = "sparse" /\ x.view = <<>> /\ ZeroPos(x) # {} /\ AtomsOfObj(x) \subseteq PlainAtoms}}
+                      x.st = "sparse" /\ x.view = <<>> /\ Len(x.c) <= 4 /\ ZeroPos(x) # {} /\ AtomsOfObj(x) \subseteq PlainAtoms}}
 
 (* LONG LINES: a table row may be arbitrarily long.  A wide object is a small    *)
 (* object whose columns (vector: elements) are repeated k times, Widen(x, k);    *)
@@ -705,7 +705,7 @@ UsedReceivers(x) ==
 ReceiversOf(x, f) ==
   IF "wide" \in DOMAIN x \/ "hist" \in DOMAIN x THEN {FreshRcv}
   ELSE IF x.k \in {"scalar", "dist"} \/ Family = "fault"
-     \/ (x.k \in {"vector", "matrix"} /\ x.view = <<>> /\ AtomsOfObj(x) \subseteq PlainAtoms)
+     \/ (x.k \in {"vector", "matrix"} /\ x.view = <<>> /\ Len(x.c) <= 6 /\ AtomsOfObj(x) \subseteq PlainAtoms)
   THEN {FreshRcv} \cup UsedReceivers(x) ELSE {FreshRcv}
 
 (* Mechanism layer for the one reader that keeps a header next to the storage: *)
